@@ -3351,8 +3351,14 @@ evhttp_send_reply_chunk_with_cb(struct evhttp_request *req, struct evbuffer *dat
 	if (!evhttp_response_needs_body(req))
 		return;
 	if (req->chunked) {
-		evbuffer_add_printf(output, "%x\r\n",
-				    (unsigned)evbuffer_get_length(databuf));
+		/* the length is a size_t: do not cut it down to 32 bits */
+#ifdef _WIN32
+		evbuffer_add_printf(output, "%I64x\r\n",
+				    (ev_uint64_t)evbuffer_get_length(databuf));
+#else
+		evbuffer_add_printf(output, "%llx\r\n",
+				    (unsigned long long)evbuffer_get_length(databuf));
+#endif
 	}
 	evbuffer_add_buffer(output, databuf);
 	if (req->chunked) {
